@@ -5,6 +5,7 @@ import (
 	"strings"
 
 	"google.golang.org/protobuf/encoding/protojson"
+	"google.golang.org/protobuf/encoding/protowire"
 	"google.golang.org/protobuf/encoding/prototext"
 	"google.golang.org/protobuf/proto"
 	"google.golang.org/protobuf/reflect/protoreflect"
@@ -74,6 +75,26 @@ func oneofInputs(c *core.Ctx) {
 					pieces = append(pieces, piece{fd, fmt.Sprintf("%d#%d", fd.Number(), variant), b, js, strings.TrimSpace(string(tb)), sm})
 				}
 			}
+			// a record that carries a member's field number with a wire type the member
+			// cannot have: it is an unknown field and must leave the oneof alone
+			for _, fd := range members {
+				var rec []byte
+				switch fd.Kind() {
+				case protoreflect.StringKind, protoreflect.BytesKind, protoreflect.MessageKind:
+					rec = protowire.AppendVarint(protowire.AppendTag(nil, fd.Number(), protowire.VarintType), 1)
+				default:
+					rec = protowire.AppendBytes(protowire.AppendTag(nil, fd.Number(), protowire.BytesType), []byte("x"))
+					if fd.Kind() == protoreflect.GroupKind {
+						rec = protowire.AppendFixed32(protowire.AppendTag(nil, fd.Number(), protowire.Fixed32Type), 7)
+					}
+				}
+				if !fd.IsList() && (fd.Kind() == protoreflect.Fixed32Kind || fd.Kind() == protoreflect.Fixed64Kind || fd.Kind() == protoreflect.Sfixed32Kind || fd.Kind() == protoreflect.Sfixed64Kind || fd.Kind() == protoreflect.FloatKind || fd.Kind() == protoreflect.DoubleKind) {
+					rec = protowire.AppendVarint(protowire.AppendTag(nil, fd.Number(), protowire.VarintType), 1)
+				}
+				sm := refmsg.New(md)
+				sm.Unknown = append([]byte{}, rec...)
+				pieces = append(pieces, piece{fd, fmt.Sprintf("%d#wrong-wire-type", fd.Number()), rec, "", "", sm})
+			}
 			n := len(pieces)
 			univ.ForTuples(c, n, 3, func(idx []int) {
 				if len(idx) == 0 {
@@ -105,7 +126,7 @@ func oneofInputs(c *core.Ctx) {
 					return
 				}
 				a, b := pieces[idx[0]], pieces[idx[1]]
-				if a.fd.ContainingOneof() != b.fd.ContainingOneof() {
+				if a.fd.ContainingOneof() != b.fd.ContainingOneof() || a.json == "" || b.json == "" {
 					return
 				}
 				// JSON / text documents naming two members of one oneof (or one member twice)
